@@ -613,7 +613,11 @@ func (srv *server) unregisterClient(client *client) {
 					verifYield("will.before_lock")
 					srv.mu.Lock()
 					defer srv.mu.Unlock()
-					delete(srv.willMessage, clientID)
+					// only this will's own entry: by now a later connection of the client may have ended
+					// as well and its delayed will may be pending under the same client id
+					if srv.willMessage[clientID] == wm {
+						delete(srv.willMessage, clientID)
+					}
 					if !send {
 						return
 					}
